@@ -228,6 +228,12 @@ func (f *Flow) edgeFacts(from *ssa.BasicBlock, succIdx int, out Facts) Facts {
 			if res.Has(a.Negate()) != nil || (a.Pred == "truth" && a.Args[0].Key() == tTrue.Key() && a.Neg) || f.contradictsAssumption(a) {
 				return nil
 			}
+			// a value has one dynamic type: is<A>(x) known (or assumed) excludes is<B>(x)
+			if a.Pred == "truth" && !a.Neg && a.Args[0].Op == "istype" {
+				if f.otherTypeKnown(res, a.Args[0]) {
+					return nil
+				}
+			}
 			// boolean evaluation of materialised conditions
 			want := succIdx == 0
 			if v := evalBool(f.C.Term(ifi.Cond), f.withAssumptions(res)); v != 0 && (v == 1) != want {
@@ -341,6 +347,24 @@ func (f *Flow) out(b *ssa.BasicBlock) Facts {
 		f.transfer(instr, facts)
 	}
 	return facts
+}
+
+func (f *Flow) otherTypeKnown(facts Facts, it *Term) bool {
+	same := func(x *Atom) bool {
+		return x.Pred == "truth" && !x.Neg && len(x.Args) == 1 && x.Args[0].Op == "istype" && x.Args[0].Name != it.Name &&
+			len(x.Args[0].Args) == 1 && x.Args[0].Args[0].Key() == it.Args[0].Key()
+	}
+	for _, x := range facts {
+		if same(x) {
+			return true
+		}
+	}
+	for _, x := range f.Assume {
+		if same(x) {
+			return true
+		}
+	}
+	return false
 }
 
 func (f *Flow) addDerived(facts Facts, a *Atom) {
